@@ -127,6 +127,26 @@ fn pick_cookie(t: &mut Tape, w: &World, live: &[Uuid]) -> Uuid {
     }
 }
 
+/// A service cookie: mostly a live one, otherwise one of a service that is gone, any cookie seen in
+/// this case, or one that was never issued.
+fn pick_svc_cookie(t: &mut Tape, w: &World) -> Uuid {
+    let live = live_svcs(w);
+    let dead = &w.model.dead_svcs;
+    match t.weighted(&[if live.is_empty() { 0 } else { 72 }, if dead.is_empty() { 0 } else { 14 }, 7, 7]) {
+        0 => *t.pick(&live),
+        1 => *t.pick(dead),
+        2 => {
+            let all: Vec<Uuid> = w.model.seen_cookies.iter().copied().collect();
+            if all.is_empty() {
+                Uuid::from_u128(0xDEAD)
+            } else {
+                *t.pick(&all)
+            }
+        }
+        _ => Uuid::from_u128(0xDEAD_0000 + t.u8() as u128),
+    }
+}
+
 fn live_objs(w: &World) -> Vec<Uuid> {
     w.model.objs.values().map(|o| o.cookie).collect()
 }
@@ -206,7 +226,7 @@ pub fn next_action(t: &mut Tape, w: &World, weights: &[(Op, u32)]) -> Option<Act
             Message::DestroyService(DestroyService { serial, cookie: ServiceCookie(pick_cookie(t, w, &live)) })
         }
         Op::Call => {
-            let service_cookie = ServiceCookie(pick_cookie(t, w, &live_svcs(w)));
+            let service_cookie = ServiceCookie(pick_svc_cookie(t, w));
             let function = t.below(2) as u32;
             let value = payload(t, v);
             if t.bool() {
@@ -244,27 +264,27 @@ pub fn next_action(t: &mut Tape, w: &World, weights: &[(Op, u32)]) -> Option<Act
         }
         Op::SubEvent => Message::SubscribeEvent(SubscribeEvent {
             serial: if t.chance(8) { None } else { Some(serial) },
-            service_cookie: ServiceCookie(pick_cookie(t, w, &live_svcs(w))),
+            service_cookie: ServiceCookie(pick_svc_cookie(t, w)),
             event: *t.pick(&EVENTS),
         }),
-        Op::UnsubEvent => Message::UnsubscribeEvent(UnsubscribeEvent { service_cookie: ServiceCookie(pick_cookie(t, w, &live_svcs(w))), event: *t.pick(&EVENTS) }),
+        Op::UnsubEvent => Message::UnsubscribeEvent(UnsubscribeEvent { service_cookie: ServiceCookie(pick_svc_cookie(t, w)), event: *t.pick(&EVENTS) }),
         Op::SubAll => Message::SubscribeAllEvents(SubscribeAllEvents {
             serial: if t.chance(8) { None } else { Some(serial) },
-            service_cookie: ServiceCookie(pick_cookie(t, w, &live_svcs(w))),
+            service_cookie: ServiceCookie(pick_svc_cookie(t, w)),
         }),
         Op::UnsubAll => Message::UnsubscribeAllEvents(UnsubscribeAllEvents {
             serial: if t.bool() { None } else { Some(serial) },
-            service_cookie: ServiceCookie(pick_cookie(t, w, &live_svcs(w))),
+            service_cookie: ServiceCookie(pick_svc_cookie(t, w)),
         }),
-        Op::SubSvc => Message::SubscribeService(SubscribeService { serial, service_cookie: ServiceCookie(pick_cookie(t, w, &live_svcs(w))) }),
-        Op::UnsubSvc => Message::UnsubscribeService(UnsubscribeService { service_cookie: ServiceCookie(pick_cookie(t, w, &live_svcs(w))) }),
+        Op::SubSvc => Message::SubscribeService(SubscribeService { serial, service_cookie: ServiceCookie(pick_svc_cookie(t, w)) }),
+        Op::UnsubSvc => Message::UnsubscribeService(UnsubscribeService { service_cookie: ServiceCookie(pick_svc_cookie(t, w)) }),
         Op::Emit => {
             let mine: Vec<Uuid> = w.model.objs.values().filter(|o| o.owner == c).flat_map(|o| o.services.values().map(|s| s.cookie)).collect();
             let live = own_first(t, mine, live_svcs(w));
             Message::EmitEvent(EmitEvent { service_cookie: ServiceCookie(pick_cookie(t, w, &live)), event: *t.pick(&EVENTS), value: payload(t, v) })
         }
-        Op::QueryVersion => Message::QueryServiceVersion(QueryServiceVersion { serial, cookie: ServiceCookie(pick_cookie(t, w, &live_svcs(w))) }),
-        Op::QueryInfo => Message::QueryServiceInfo(QueryServiceInfo { serial, cookie: ServiceCookie(pick_cookie(t, w, &live_svcs(w))) }),
+        Op::QueryVersion => Message::QueryServiceVersion(QueryServiceVersion { serial, cookie: ServiceCookie(pick_svc_cookie(t, w)) }),
+        Op::QueryInfo => Message::QueryServiceInfo(QueryServiceInfo { serial, cookie: ServiceCookie(pick_svc_cookie(t, w)) }),
         Op::CreateChannel => Message::CreateChannel(CreateChannel {
             serial,
             end: if t.bool() { ChannelEndWithCapacity::Sender } else { ChannelEndWithCapacity::Receiver(*t.pick(&CAPS)) },
